@@ -45,12 +45,16 @@ LimitOf(front, limit) == IF front \in {"stream_new"} THEN Default ELSE limit
 Requests(d) == {<<d, 0>>}                                   \* a window descriptor declares exactly S(d)
 SingleSegment(d) == {<<d, -1>>, <<d, 0>>, <<d, 1>>} \cup {<<-1, 0>>, <<-1, 3>>, Huge}   \* content sizes around S(d), tiny and enormous
 
-CasesFor(d, single, reqs, h, f) ==
-    UNION {{[desc |-> d, single |-> single, requested |-> r, limit |-> l, history |-> h, front |-> f,
+\* fcs: how the header carries the content size -- "absent"; "zero": a 4-byte field holding the true size of the (empty)
+\* frame next to a window descriptor; "field": the single-segment form, where the field IS the window.  With a window
+\* descriptor the decision is about the DECLARED window, whatever the content size says.
+CasesFor(d, single, fcs, reqs, h, f) ==
+    UNION {{[desc |-> d, single |-> single, fcs |-> fcs, requested |-> r, limit |-> l, history |-> h, front |-> f,
              expect |-> Decide(r, LimitOf(f, l))] : l \in {x \in LimitsFor(r) : WellFormedRank(x)}} : r \in reqs}
 Cases ==
     UNION {UNION {UNION {
-        CasesFor(d, FALSE, Requests(d), h, f) \cup CasesFor(d, TRUE, {y \in SingleSegment(d) : WellFormedRank(y)}, h, f)
+        CasesFor(d, FALSE, "absent", Requests(d), h, f) \cup CasesFor(d, FALSE, "zero", Requests(d), h, f)
+        \cup CasesFor(d, TRUE, "field", {y \in SingleSegment(d) : WellFormedRank(y)}, h, f)
       : f \in Fronts} : h \in Histories} : d \in Descs}
 
 \* ---- properties of the decision itself ------------------------------------------------
